@@ -148,3 +148,43 @@ def rows_from_gaps(q):
         r.append(c)
     r.append("-" * g[len(s)])
     return "".join(r)
+
+
+class Rejected(Exception):
+    """kalign returned a failure status (cleanly)."""
+
+    def __init__(self, what, info=None):
+        Exception.__init__(self, what)
+        self.what = what
+        self.info = info or {}
+
+
+def align_named(names, seqs, cfg, variant="asan", env=None, hook=None, delays=None, codes=False, width=0):
+    """One FASTA file -> read+run+dump. Returns dict(names, rows, biotype, alnlen, run)."""
+    wd = runner.workdir()
+    fp = wd.write(fasta_bytes(names, seqs, width=width), ".fa")
+    r = run_files([fp], cfg, variant=variant, env=env, hook=hook, delays=delays, codes=codes)
+    if r["read_rcs"] != [0] or r["run_rc"] != 0 or r["msa"] is None:
+        raise Rejected("read/run failed", {"read": r["read_rcs"], "run": r["run_rc"]})
+    n, rows = msa_rows(r["msa"])
+    return {"names": n, "rows": rows, "biotype": r["msa"]["biotype"], "alnlen": r["msa"]["alnlen"], "run": r["run"],
+            "msa": r["msa"]}
+
+
+def align_arr(seqs, cfg, variant="asan", env=None):
+    r = run_arr(seqs, cfg, variant=variant, env=env)
+    if r["rc"] != 0:
+        raise Rejected("kalign() failed", {"rc": r["rc"]})
+    return {"rows": r["rows"], "alnlen": r["alnlen"]}
+
+
+def biotype_of(seqs, variant="asan"):
+    """Kind kalign itself reports for these residues (array path, no alignment)."""
+    wd = runner.workdir()
+    sp = wd.write(runner.seqset_bytes(seqs), ".seqs")
+    pr = runner.run_probe(["arr2msa 0 %s" % sp, "dump 0", "free 0"], variant=variant)
+    if pr.ended.bad or pr.ended.rc != 0 or not pr.steps or len(pr.steps) < 2:
+        raise Failure(pr.ended, "kalign_arr_to_msa")
+    if pr.steps[0]["rc"] != 0 or pr.steps[1].get("msa") is None:
+        raise Rejected("kalign_arr_to_msa failed")
+    return pr.steps[1]["msa"]["biotype"]
